@@ -168,6 +168,15 @@ func runBits(p bitProg) tr.Ev {
 		}()
 		off := 0
 		for k, op := range ops {
+			if p.ID%2 == 1 && k%3 == 0 {
+				// a query between the reads (callers use it as an "anything left?" guard): it must not disturb what follows
+				if more, _ := ibs.HasMoreToRead(); !more && (op.Op == "bit" || op.N > 0) {
+					valuesOK = false
+					if ev["firstBad"] == "" {
+						ev["firstBad"] = fmt.Sprintf("HasMoreToRead before read op %d says no", k)
+					}
+				}
+			}
 			switch op.Op {
 			case "bit":
 				if uint64(ibs.ReadBit()) != vec.get(off, 1) {
